@@ -51,3 +51,79 @@ MUTANTS += [
     dict(id="c11-revert-fix-max", prop="C11", file="eqsig/fns/peaks_and_crossings.py",
          old="        if values[peak_full_indices[1]] - values[0] > 0:", new="        if values[1] - values[0] > 0:", why="reverts fix C11-F1 (max)"),
 ]
+
+# ---- wave 2: window mutants (a variant that exists only above an arbitrary size), audit survivors S1-S5, and two
+#      behaviour-preserving refactorings (expect="survive") that the mid-range clause must not flag
+MUTANTS += [
+    dict(id="c11-w-clean-seam-5000", prop="C11", file=F,
+         old="    non_zero_indices = np.where(diff_values != 0)[0]\n",
+         new="    if len(values) > 5000:\n        diff_values[5000::5000] = 1.0  # blocked variant: every block keeps its first sample\n"
+             "    non_zero_indices = np.where(diff_values != 0)[0]\n",
+         why="window > 5000 samples: plateau compression in blocks of 5000 keeps every block's first sample (a plateau across a seam is split) - audit S3"),
+    dict(id="c11-w-peaks-seam-20000", prop="C11", file=F,
+         old="    peak_indices = np.where(diff[1:] * diff[:-1] < 0)[0]",
+         new="    prod = diff[1:] * diff[:-1]\n    if len(values) > 20000:\n        prod[20000::20000] = 1.0  # seam element left to the next block\n"
+             "    peak_indices = np.where(prod < 0)[0]",
+         why="window > 20000 cleaned samples: blocked sign test never evaluates the element at a block seam (turning point lost there)"),
+    dict(id="c11-w-ncyc-start-70000", prop="C11", file=F,
+         old="    n_cycs[1:] += svalue\n", new="    n_cycs[1:] += svalue if len(values) <= 70000 else -0.25\n",
+         why="window > 70000 samples: start='peak' ignored (first increment 0.25) - audit S1 with another threshold"),
+    dict(id="c11-ncyc-start-3200", prop="C11", file=F,
+         old="    n_cycs[1:] += svalue\n", new="    n_cycs[1:] += svalue if len(values) <= 3200 else -0.25\n",
+         why="audit S1 as written: records > 3200 samples ignore start='peak'"),
+    dict(id="c11-ncyc-switched-short", prop="C11", file=F,
+         old="    return np.interp(np.arange(len(values)), indys, n_cycs)",
+         new="    npts = len(values) if opt == 'all' else indys[-1] + 1\n    return np.interp(np.arange(npts), indys, n_cycs)",
+         why="audit S2: opt='switched' counter ends at the last switched peak (shorter than the series)"),
+    dict(id="c11-w-ncyc-float32-250000", prop="C11", file=F,
+         old="    return np.interp(np.arange(len(values)), indys, n_cycs)",
+         new="    if len(values) > 250000:\n        ramp = np.interp(np.arange(len(values)), indys, n_cycs)\n"
+             "        return np.cumsum(np.diff(ramp, prepend=0.0).astype(np.float32), dtype=np.float32).astype(float)\n"
+             "    return np.interp(np.arange(len(values)), indys, n_cycs)",
+         why="window > 250000 samples: memory-saving single-precision accumulation of the ramp"),
+    dict(id="c11-w-ncyc-switched-origin-9000", prop="C11", file=F,
+         old="    if indys[0] != 0:\n        indys = np.insert(indys, 0, 0)\n",
+         new="    if indys[0] != 0 and (len(values) <= 9000 or start == 'peak'):\n        indys = np.insert(indys, 0, 0)\n",
+         why="window > 9000 samples x option pair (opt='switched', start='origin'): the origin is not inserted, the counter reaches 0.25 "
+             "only at the second switched peak"),
+    dict(id="c11-w-min-droplast-3000", prop="C11", file=F,
+         old="            return peak_full_indices[1::2]\n        else:\n            return peak_full_indices[::2]\n    elif ptype == 'max':",
+         new="            return peak_full_indices[1::2] if len(peak_full_indices) <= 3000 else peak_full_indices[1:-1:2]\n        else:\n"
+             "            return peak_full_indices[::2] if len(peak_full_indices) <= 3000 else peak_full_indices[:-1:2]\n    elif ptype == 'max':",
+         why="window > 3000 reported peaks: ptype='min' never returns the last reported index"),
+    dict(id="c11-w-wrapper-40000", prop="C11", file=F,
+         old="    return get_peak_array_indices(asig.values)\n",
+         new="    return get_peak_array_indices(asig.values if asig.npts <= 40000 else asig.values[:-1])\n",
+         why="window > 40000 samples: the Signal-level wrapper analyses the record without its last sample"),
+    dict(id="c11-wrapper-max-only", prop="C11", file=F,
+         old="    return get_peak_array_indices(asig.values)\n",
+         new="    return get_peak_array_indices(asig.values, ptype='max')\n",
+         why="audit S5: the Signal-level wrapper returns the maxima only"),
+    dict(id="c11-w-cache-30000-150000", prop="C11", file=F,
+         old="    # enforce array type\n    values = np.array(values, dtype=float)\n    # remove all non-changing values\n"
+             "    cleaned_values, non_zero_indices = clean_out_non_changing(values)\n    # cleaned_values *= np.sign(cleaned_values[1])",
+         new="    # enforce array type\n    values = np.array(values, dtype=float)\n    # remove all non-changing values\n"
+             "    global _CLEAN_CACHE\n    try:\n        _CLEAN_CACHE\n    except NameError:\n        _CLEAN_CACHE = {}\n"
+             "    key = (len(values), float(values[0]), float(values[-1]))\n"
+             "    if 30000 <= len(values) <= 150000 and key in _CLEAN_CACHE:\n        cleaned_values, non_zero_indices = _CLEAN_CACHE[key]\n"
+             "    else:\n        cleaned_values, non_zero_indices = clean_out_non_changing(values)\n        _CLEAN_CACHE.clear()\n"
+             "        _CLEAN_CACHE[key] = (cleaned_values, non_zero_indices)\n    # cleaned_values *= np.sign(cleaned_values[1])",
+         why="cache kept only for mid-size records (30 000 .. 150 000 samples), keyed on (length, first, last): stale when the record changes inside"),
+    dict(id="c11-int-float32", prop="C11", file=F,
+         old="    values = np.array(values, dtype=float)\n    # remove all non-changing values",
+         new="    values = np.array(values, dtype=np.float32 if np.asarray(values).dtype.kind in 'iu' else float)\n    # remove all non-changing values",
+         why="audit S4: integer records analysed in single precision (counts above 2^24 merge)"),
+    dict(id="c11-w-ok-blocked-clean-4096", prop="C11", file=F, expect="survive",
+         old="    diff_values = np.ediff1d(values, to_begin=values[0])\n",
+         new="    if len(values) > 4096:\n        diff_values = np.empty(len(values), dtype=np.asarray(values).dtype)\n        diff_values[0] = values[0]\n"
+             "        for i0 in range(1, len(values), 4096):\n            i1 = min(len(values), i0 + 4096)\n"
+             "            diff_values[i0:i1] = np.asarray(values[i0:i1]) - np.asarray(values[i0 - 1:i1 - 1])\n"
+             "    else:\n        diff_values = np.ediff1d(values, to_begin=values[0])\n",
+         why="behaviour-preserving: a CORRECT blocked plateau compression above 4096 samples (must not be flagged)"),
+    dict(id="c11-w-ok-ncyc-staircase-10000", prop="C11", file=F, expect="survive",
+         old="    return np.interp(np.arange(len(values)), indys, n_cycs)",
+         new="    if len(values) > 10000:\n        steps = np.zeros(len(values))\n        steps[indys] = np.diff(n_cycs, prepend=0.0)\n"
+             "        return np.cumsum(steps)\n    return np.interp(np.arange(len(values)), indys, n_cycs)",
+         why="behaviour-preserving w.r.t. the statement: above 10000 samples the counter is a staircase (right values at the reported peaks, "
+             "non-decreasing) instead of a ramp (must not be flagged)"),
+]
